@@ -12,6 +12,7 @@ The real `ViewSection.match(view_expr)` (the path `MichelsonProgram.match` takes
 Observable: accepted / rejected, and for a rejection which check raised (name-long / name-char / code:<PRIM named>).
 Oracle: the property's own statement evaluated on the JSON (`spec_verdict`).  Model: `Impl.View.checkView`.
 """
+import hashlib
 import itertools
 import re
 import string
@@ -291,7 +292,8 @@ def run(ctx):
         return items
     for i in range(1500 if quick else 20000):
         code = rand_block(rng.randrange(1, 6))
-        cases.append(('tree', {'tree': i, 'prims': len(prims_of(code))}, rng.choice(['v', 'get_balance', 'a.b%c@d']), code))
+        cases.append(('tree', {'tree': hashlib.sha1(mich.to_line(code).encode()).hexdigest()[:16], 'prims': len(prims_of(code))},
+                      rng.choice(['v', 'get_balance', 'a.b%c@d']), code))
 
     lines = [mich.to_line(view_expr(n, c)) for _, _, n, c in cases]
     model = ctx.model(lines)
